@@ -64,6 +64,9 @@ func (x *Exec) callStatic(bc *blockCtx, in ssa.Instruction, f *ssa.Function, bin
 		return r
 	}
 	fc := x.prog.Contracts.Funcs[name]
+	if fc != nil && x.rootC != nil && x.rootC.InlineCallees[name] {
+		fc = nil
+	}
 	if fc != nil && !fc.Inline {
 		return x.applyContract(bc, in, f, fc, args, binds)
 	}
@@ -362,7 +365,8 @@ func (x *Exec) pureInvoke(key string, recv *smt.Term, m *types.Func, args []*Val
 
 // ifaceAxiom asserts the interface method contract of m once, as a universally
 // quantified axiom triggered by applications of the method symbol:
-//   forall self, params. ensures(self, params, m(self, params))
+//
+//	forall self, params. ensures(self, params, m(self, params))
 func (x *Exec) ifaceAxiom(key string, m *types.Func) {
 	if x.ufDecl["ifax:"+key] {
 		return
@@ -415,6 +419,24 @@ func (x *Exec) callDynamic(bc *blockCtx, in ssa.Instruction, fv *Val, cc *ssa.Ca
 	}
 	sig := cc.Signature()
 	x.check(bc, "safe:nil", in, x.b.Not(x.b.Eq(ft, x.b.Int(0))))
+	// contract obligations attached to calls of a function-valued parameter
+	if prm, ok := cc.Value.(*ssa.Parameter); ok && bc.fr.fc != nil && x.spec == 0 {
+		for i, cl := range bc.fr.fc.OnCall[prm.Name()] {
+			vars := map[string]*Val{}
+			for k, v := range bc.fr.params {
+				vars[k] = v
+			}
+			for k, a := range args {
+				vars[fmt.Sprintf("arg%d", k)] = a
+			}
+			ce := &CEnv{x: x, fr: bc.fr, st: bc.st, old: bc.fr.entry, vars: vars, lets: bc.fr.lets, guard: bc.reach, fc: bc.fr.fc, env: bc.env}
+			lab := fmt.Sprintf("#%d", i)
+			if cl.Label != "" {
+				lab = ":" + cl.Label
+			}
+			x.oblige("oncall", fmt.Sprintf("%soncall(%s)%s", bc.fr.prefix, prm.Name(), lab), bc.reach, x.evalBool(ce, cl), posOf(in), cl.Text, false)
+		}
+	}
 	// ghost call counter
 	x.heapSorts["G_calls"] = "(Array Int Int)"
 	h := x.getHeap(bc.st, "G_calls")
